@@ -293,7 +293,7 @@ class TaskManager:
 
         if tasks:
             with suppress(CancelledError):
-                await gather(*tasks)
+                await gather(*tasks, return_exceptions=True)
 
         for post_shutdown_task, args, kwargs in self._shutdown_tasks:
             if iscoroutinefunction(post_shutdown_task):
